@@ -392,11 +392,24 @@ func checkStickyLoadFailure(p *Prog, r *Report, rule string) {
 		return
 	}
 	errT := types.Universe.Lookup("error").Type()
+	// the error cache: an error-typed package-level variable that is assigned outside the package initialiser (sentinel
+	// errors are only ever assigned by the initialiser)
+	errGs := map[*ssa.Global]bool{}
 	if pk := p.SPkg[Mod+"/"+uxPkg]; pk != nil {
 		for _, m := range pk.Members {
 			if g, ok := m.(*ssa.Global); ok {
 				if pt, ok := g.Type().Underlying().(*types.Pointer); ok && types.Identical(pt.Elem(), errT) {
-					errG = g
+					for _, f := range p.FuncsIn(uxPkg) {
+						if isPkgInit(f) {
+							continue
+						}
+						eachInstr(f, func(i ssa.Instruction) {
+							if st, ok := i.(*ssa.Store); ok && st.Addr == ssa.Value(g) {
+								errGs[g] = true
+								errG = g
+							}
+						})
+					}
 				}
 			}
 		}
@@ -426,7 +439,11 @@ func checkStickyLoadFailure(p *Prog, r *Report, rule string) {
 		}
 		isRecord := func(j ssa.Instruction) bool {
 			st, ok := j.(*ssa.Store)
-			return ok && st.Addr == ssa.Value(errG) && isErrOf(st.Val)
+			if !ok {
+				return false
+			}
+			g, isG := st.Addr.(*ssa.Global)
+			return isG && errGs[g] && isErrOf(st.Val)
 		}
 		for _, ret := range returnsOf(loader) {
 			if !reachableAfter(cl, ret) || errNilGuarded(ret.Block(), cl) {
